@@ -97,15 +97,16 @@ CLAIMED = {
                   'the queue; application sends in the forbidden states return false and leave queue and driver untouched.  Tied to the C++ by correspondence on claim-window histories; oracle independent of the model.',
              note=TB + 'Open known findings claim-window:queued-frame-flushed / former-address:queued-frame-flushed (D-05): the wire-level reading is machine-checked false (C04_wire_level_refuted) because frames queued earlier are '
                   'flushed inside the window; wire_level is proved under the hypothesis that the queue holds no such frame.  Hypothesis clock_ok (64-bit clock below 2^63).  Debug modes dm_ClearText/dm_Actisense out of scope.  '
-                  'gf contract proved for the no-op instance and for the library's handlers (C04_gf_lib_ok).',
+                  'gf contract proved for the no-op instance and for the library handlers (C04_gf_lib_ok).',
              design='6 C04', technique='Coq refinement proof (node step -> send-entitlement machine) + extracted-model/implementation correspondence'),
- 'C02': dict(ready=False, text='rx_no_corruption: for every group-function reaction satisfying a frame contract, every clean node and EVERY operation list (any interleaving, any losses, any number of senders and slots, any clock), each '
-                  'non-TP delivery is justified by an increasing run of arrived frames (one first frame, continuation frames with the same PGN/source/destination and consecutive sequence bytes, announced length reached exactly at '
-                  'the last frame, payload/priority/addresses taken from them) and no frame justifies two deliveries; runs_are_sent ties such runs to ONE sent message unless 8 messages of the PGN were started in between; '
-                  'over-long announcements never delivered; single frames delivered with DLC; supersede and out-of-sequence discard on one frame; completeness in compositional form (first/continuation/other-traffic/whole poll).  '
-                  'Model tied to the C++ by correspondence on frame streams incl. all interleavings of 2 senders x 3 frames x 64 drop patterns (thorough).',
-             note=TB + 'Open known finding complete-stale: the full completeness statement (no more keys than slots => every complete in-order run delivered) is machine-checked FALSE (C02_rx_complete_false, witness replayed on the C++); '
-                  'the proved completeness needs a place at the first frame and the 100 ms slot-age hypothesis.  No ordering statement for deliveries; ISO-TP deliveries are C10.',
+ 'C02': dict(text='rx_no_corruption: for every group-function reaction satisfying a frame contract (proved for the library handlers), every clean node and EVERY operation list (any interleaving, any losses, any number of senders '
+                  'and slots, any clock), each non-TP delivery is justified by an increasing run of arrived frames (one first frame, continuation frames with the same PGN/source/destination and consecutive sequence bytes, '
+                  'announced length reached exactly at the last frame, payload/priority/addresses taken from them) and no frame justifies two deliveries; runs_are_sent ties such runs to ONE sent message unless 8 messages of '
+                  'the PGN were started in between; rx_complete: from an idle table, with no more (PGN,source,destination) keys in the queue than slots, every complete in-order run is delivered whatever is interleaved; '
+                  'over-long announcements never delivered; single frames delivered with DLC; supersede (always the slot of the key) and out-of-sequence discard.  Model tied to the C++ by correspondence on frame streams '
+                  'incl. all interleavings of 2 senders x 3 frames x 64 drop patterns (thorough).',
+             note=TB + 'The stale-slot defect found by the refuted completeness statement was repaired in /repo (797643b) and completeness is now proved.  rx_complete is stated for one ParseMessages loop from an idle table; across polls '
+                  'the step theorems compose (rx_table_kept, poll_is_loop, 100 ms slot-age hypothesis).  No ordering statement for deliveries; ISO-TP deliveries are C10.',
              design='6 C02', technique='Coq invariant proof over executable model + extracted-model/implementation correspondence'),
  'C12': dict(text='Theorems about the heartbeat part of the node model: the next time is always the least grid point offset+k*period after now (late polling delays, never shifts); for every poll pattern a heartbeat is sent at '
                   'the first poll at or after each grid point; the interval field is the configured interval in 10 ms units for the whole settable range 1000..655320 ms and the sequence counter runs 0..252 and wraps, for '
